@@ -133,6 +133,8 @@ def main():
     def fail(sig, case, what):
         if sum(1 for f in failures if f["signature"] == sig) < 5:
             failures.append({"signature": sig, "case": case, "what": what})
+        if job.get("stop_on") and sig.startswith(job["stop_on"]):
+            state["updates"] = 10 ** 18      # search run: the first hit is enough
 
     def bump(k, n=1):
         stats[k] = stats.get(k, 0) + n
@@ -150,6 +152,9 @@ def main():
 
         config = ConfigParser()
         assert config.read(job["ini"])
+        if config.has_section("PdbInputHandler"):
+            from harness.runtrace import install_pdb_standin
+            install_pdb_standin()
         for sec, kv in job.get("overrides", {}).items():
             if not config.has_section(sec):
                 config.add_section(sec)
@@ -166,6 +171,8 @@ def main():
         base_case = {"ini": os.path.relpath(job["ini"], os.path.dirname(os.path.dirname(jellyfysh.__file__))),
                      "overrides": job.get("overrides", {}), "seed": job["seed"]}
 
+        import time
+        deadline = time.time() + job["max_seconds"] if job.get("max_seconds") else None
         recorders = {}
         state = {"preceding": None, "mediator": None, "activator": None, "updates": 0}
 
@@ -266,7 +273,7 @@ def main():
                 raise err
             oracle(rec, true_units(rec), {u.identifier for u in act_units}, fail, dict(case, preceding=kind), "update")
             bump("legs")
-            if state["updates"] >= job["max_updates"]:
+            if state["updates"] >= job["max_updates"] or (deadline and (state["updates"] & 255) == 0 and time.time() > deadline):
                 raise EndOfRun
 
         SingleActiveCellOccupancy.__init__ = w_init
@@ -275,11 +282,37 @@ def main():
 
         orig_gehtru = TagActivator._get_event_handlers_to_run_update
 
+        from jellyfysh.activator.tagger.cell_boundary_tagger import CellBoundaryTagger
+        from jellyfysh.event_handler.abstracts import EndOfRunEventHandler
+        out["premise_failures"] = []
+
         @functools.wraps(orig_gehtru)
         def w_gehtru(self, extracted_active_global_state, preceding_event_handler):
             state["preceding"] = preceding_event_handler
             state["activator"] = self
-            return orig_gehtru(self, extracted_active_global_state, preceding_event_handler)
+            res = orig_gehtru(self, extracted_active_global_state, preceding_event_handler)
+            # premise of the link theorem `SystemLinks.active_unit_stays_in_recorded_cell`: while an occupancy records a
+            # relevant active unit, a cell-boundary candidate of that occupancy is pending (its handler is 'running')
+            if not isinstance(preceding_event_handler, EndOfRunEventHandler):
+                for rec in recorders.values():
+                    act = list(rec.occ.yield_active_cells())
+                    if not act or act[0][1] is None:
+                        continue
+                    taggers = [t for t in self._taggers
+                               if isinstance(t, CellBoundaryTagger) and getattr(t, "_internal_state", None) is rec.occ]
+                    if not taggers:
+                        continue
+                    bump("premise:checked")
+                    running = sum(len(self._running_event_handlers[t]) for t in taggers)
+                    if running != 1:
+                        bump("premise:" + ("missing" if running == 0 else "several"))
+                        if len(out["premise_failures"]) < 5:
+                            out["premise_failures"].append(
+                                dict(base_case, leg=rec.n_updates, preceding=type(preceding_event_handler).__name__,
+                                     preceding_tag=getattr(self._event_handler_tagger_dictionary[preceding_event_handler], "_tag", None),
+                                     cell_level=rec.cell_level, pending_cell_boundary_candidates=running,
+                                     active_unit=str(act[0][1])))
+            return res
 
         TagActivator._get_event_handlers_to_run_update = w_gehtru
 
